@@ -134,6 +134,8 @@ def build(ens, table, seed, calc_kind, restart_file):
             comp.bias_towards_insert = 0.8
             mc.add_move(comp, criteria=GrandCanonicalCriteria())
         elif table == "exch_and_disp":
+            mc.accessible_volume = 0.3 * atoms.cell.volume  # the user declares a pore: the acceptance ratios depend on it
+            mc.max_cycles = 5
             mc.add_move(ExchangeMove(lab.copy(), op, bias_towards_insert=0.4), name="exch")
             mc.add_move(DisplacementMove(lab.copy(), Ball(0.3)), name="disp")
         elif table == "exch_and_coarse_disp":
@@ -186,6 +188,9 @@ def digest(mc):
         "mom": a.get_momenta().tobytes().hex() if type(mc).__name__ == "HamiltonianCanonical" else "",
         "lastE": float(getattr(ctx, "last_potential_energy", 0.0)), "hist": [(str(n), None if v is None else bool(v)) for n, v in mc.move_history],
         "labels": labels, "nexch": int(getattr(ctx, "number_of_exchange_particles", 0)), "step": int(mc.step_count), "rng": repr(mc._rng.bit_generator.state["state"]),
+        # the scalar settings Restart.tla lists as future-relevant (a lost setting may take many steps to show in the atoms)
+        "settings": {k: (np.asarray(getattr(mc, k)).tolist() if getattr(mc, k, None) is not None else None)
+                     for k in ("temperature", "pressure", "chemical_potential", "accessible_volume", "external_stress", "max_cycles") if hasattr(mc, k)},
     }
 
 
@@ -226,7 +231,7 @@ def driver_class(name):
 
 
 def compare(a, b):
-    for k in ("n", "numbers", "pos", "cell", "mom", "hist", "labels", "nexch", "step", "rng"):
+    for k in ("n", "numbers", "pos", "cell", "mom", "hist", "labels", "nexch", "step", "rng", "settings"):
         if a[k] != b[k]:
             return k
     if not (a["lastE"] == b["lastE"] or abs(a["lastE"] - b["lastE"]) <= 1e-12 * max(1.0, abs(a["lastE"]))):
